@@ -231,11 +231,20 @@ class AffineEval:
             # map ctor params to fields through `self.f = param` in __init__
             fields = {}
             for node in ast.walk(callees[0].node):
-                if isinstance(node, ast.Assign) and len(node.targets) == 1 \
-                        and isinstance(node.targets[0], ast.Attribute) \
-                        and norm(node.targets[0].value) == 'self' \
-                        and isinstance(node.value, ast.Name):
-                    fields[node.targets[0].attr] = vals.get(node.value.id)
+                if not isinstance(node, ast.Assign):
+                    continue
+                pairs = []
+                for t in node.targets:
+                    if isinstance(t, (ast.Tuple, ast.List)) and isinstance(
+                            node.value, (ast.Tuple, ast.List)) and \
+                            len(t.elts) == len(node.value.elts):
+                        pairs += list(zip(t.elts, node.value.elts))
+                    else:
+                        pairs.append((t, node.value))
+                for t, v in pairs:
+                    if isinstance(t, ast.Attribute) and norm(t.value) == 'self' \
+                            and isinstance(v, ast.Name):
+                        fields[t.attr] = vals.get(v.id)
             r = Record(**fields)
             r.cls = cls.name
             return r
@@ -261,6 +270,27 @@ class AffineEval:
             if isinstance(s.value, ast.Constant):
                 return
             self.ev(s.value)
+            return
+        if isinstance(s, ast.Assign) and len(s.targets) == 1 \
+                and isinstance(s.targets[0], (ast.Tuple, ast.List)) \
+                and isinstance(s.value, (ast.Tuple, ast.List)) \
+                and len(s.targets[0].elts) == len(s.value.elts):
+            # a, b = x, y: all values first, then the stores left to right
+            vals = [ast.copy_location(ast.Assign([t], v), s)
+                    for t, v in zip(s.targets[0].elts, s.value.elts)]
+            names = set(x.id for t in s.targets[0].elts for x in ast.walk(t)
+                        if isinstance(x, ast.Name))
+            reads = set(x.id for v in s.value.elts for x in ast.walk(v)
+                        if isinstance(x, ast.Name))
+            if names & reads - {'self'}:
+                raise NotAffine('swap-like tuple assignment %s' % norm(s)[:50])
+            for a in vals:
+                self.stmt(a)
+            return
+        if isinstance(s, ast.Assign) and len(s.targets) > 1:
+            # a = b = v
+            for t in s.targets:
+                self.stmt(ast.copy_location(ast.Assign([t], s.value), s))
             return
         if isinstance(s, ast.Assign) and len(s.targets) == 1:
             v = self.ev(s.value)
